@@ -115,6 +115,18 @@ def replay_nested(rec: Dict[str, Any], mq: str, rels: List[str]) -> List[Tuple[s
         disc = ""
         got: Any = None
         try:
+            if rec.get("haskeys"):
+                # member names among the selections: whatever comes of it - a projection, a refusal - the document stays as it was
+                try:
+                    got = list(jsonpath.query(mq, doc).select(*rels, projection=style))
+                except BaseException:  # noqa: BLE001
+                    got = None
+                if canon(tag(doc)) != canon(rec["doc"]):
+                    disc = "document-modified"
+                if disc:
+                    return [(f"{key}:{disc}|nested-selections-with-member-names", {"doc": show(rec["doc"]), "match_query": mq, "relative_queries": rels, "style": key,
+                                                                                 "expected": "document unchanged", "observed": show(tag(doc)), "tagged": rec}, disc)]
+                continue
             got = list(jsonpath.query(mq, doc).select(*rels, projection=style))
             if canon(tag(doc)) != canon(rec["doc"]):
                 disc = "document-modified"
